@@ -24,10 +24,21 @@ import (
 //   E valid server-final for the running exchange      F server-final made with another key
 //   G server-final computed over empty state           H empty challenge
 //   I junk challenge                                   J 235 success            K 535 failure
+//   L replayed server-final: the valid one of an EARLIER exchange of the same Auth object (abandoned
+//     by a restart in this session, or completed on a previous connection); G's value if there is none
 
 type c15Case struct {
 	Mech string `json:"mech"` // SCRAM-SHA-1 | SCRAM-SHA-256 | SCRAM-SHA-1-PLUS | SCRAM-SHA-256-PLUS
 	Seq  string `json:"seq"`  // server messages, e.g. "HAEJ"
+	// Reuse: the same smtp.Auth object first completes a genuine exchange on another connection
+	// (as happens with WithSMTPAuthCustom and two dials); its server signature is what 'L' replays.
+	Reuse bool `json:"reuse,omitempty"`
+}
+
+// c15Shared is what an attacker can have recorded earlier: the server-final of a previous exchange.
+type c15Shared struct {
+	lastValidSig string // signature of the most recent exchange that reached a verified client-final
+	prevSig      string // signature of an exchange that is over (abandoned by a restart, or on an earlier connection)
 }
 
 type c15Result struct {
@@ -45,6 +56,28 @@ const (
 )
 
 func c15Exec(c *c15Case) (*c15Result, *core.Violation) {
+	shared := &c15Shared{}
+	if c.Reuse && !strings.HasSuffix(c.Mech, "-PLUS") {
+		var a smtp.Auth
+		if strings.Contains(c.Mech, "SHA-1") {
+			a = smtp.ScramSHA1Auth(c15User, c15Pass)
+		} else {
+			a = smtp.ScramSHA256Auth(c15User, c15Pass)
+		}
+		first, hv := c15Conn(c, "HAEJ", a, shared)
+		if hv != nil {
+			return nil, hv
+		}
+		if first.authErr != nil || !first.legit {
+			return nil, core.V("HARNESS-reuse", "the genuine first exchange failed: %v (legit %v, trace %v)", first.authErr, first.legit, first.trace)
+		}
+		shared.prevSig = shared.lastValidSig
+		return c15Conn(c, c.Seq, a, shared)
+	}
+	return c15Conn(c, c.Seq, nil, shared)
+}
+
+func c15Conn(c *c15Case, seq string, given smtp.Auth, shared *c15Shared) (*c15Result, *core.Violation) {
 	out := &c15Result{}
 	plus := strings.HasSuffix(c.Mech, "-PLUS")
 	p := refsasl.ScramParams{Hash: "SHA-256", Plus: plus, Salt: []byte("verif-salt-0123"), Iter: 4, NonceSuffix: "SrvNonce9z"}
@@ -91,6 +124,9 @@ func c15Exec(c *c15Case) (*c15Result, *core.Violation) {
 					out.violation = core.V("malformed-client-first", "%v: %q", err, resp)
 					return
 				}
+				if shared.lastValidSig != "" {
+					shared.prevSig = shared.lastValidSig // the abandoned exchange's signature can be replayed
+				}
 				cf, sfValid, cfinOK, authMessage, verified = ncf, "", false, "", false
 				return
 			}
@@ -111,11 +147,12 @@ func c15Exec(c *c15Case) (*c15Result, *core.Violation) {
 				i := strings.LastIndex(string(resp), ",p=")
 				authMessage = cf.Bare + "," + sfValid + "," + string(resp)[:i]
 				cfinOK = true
+				shared.lastValidSig = srvSig(c15Pass, authMessage)
 			case 'B', 'C', 'D':
 				if kind == "client-final" {
 					out.violation = core.V("continued-after-invalid-server-first", "the client sent a client-final message in response to an invalid server-first (%c): %q", sym, resp)
 				}
-			case 'E', 'F', 'G':
+			case 'E', 'F', 'G', 'L':
 				if kind == "empty" {
 					// the client acknowledged this server-final message
 					if sym == 'E' && cfinOK {
@@ -126,8 +163,8 @@ func c15Exec(c *c15Case) (*c15Result, *core.Violation) {
 				}
 			}
 		}
-		for i := 0; i < len(c.Seq); i++ {
-			sym := c.Seq[i]
+		for i := 0; i < len(seq); i++ {
+			sym := seq[i]
 			out.steps++
 			var challenge string
 			switch sym {
@@ -176,6 +213,14 @@ func c15Exec(c *c15Case) (*c15Result, *core.Violation) {
 				m := hmac.New(h, nil)
 				m.Write([]byte("Server Key"))
 				challenge = "v=" + mac(m.Sum(nil), "")
+			case 'L':
+				if shared.prevSig != "" {
+					challenge = "v=" + shared.prevSig
+				} else {
+					m := hmac.New(h, nil)
+					m.Write([]byte("Server Key"))
+					challenge = "v=" + mac(m.Sum(nil), "")
+				}
 			case 'H':
 				challenge = ""
 			case 'I':
@@ -234,9 +279,12 @@ func c15Exec(c *c15Case) (*c15Result, *core.Violation) {
 			}
 		} else {
 			client, err = smtp.NewClient(cl, refHost)
-			if strings.Contains(c.Mech, "SHA-1") {
+			switch {
+			case given != nil:
+				a = given
+			case strings.Contains(c.Mech, "SHA-1"):
 				a = smtp.ScramSHA1Auth(c15User, c15Pass)
-			} else {
+			default:
 				a = smtp.ScramSHA256Auth(c15User, c15Pass)
 			}
 		}
@@ -260,7 +308,7 @@ func c15Exec(c *c15Case) (*c15Result, *core.Violation) {
 		}
 		out.authErr = err
 	case <-time.After(15 * time.Second):
-		return nil, core.V("HARNESS-timeout", "Auth did not return for sequence %s", c.Seq)
+		return nil, core.V("HARNESS-timeout", "Auth did not return for sequence %s", seq)
 	}
 	_ = cl.Close()
 	select {
@@ -296,8 +344,8 @@ func c15Run(c c15Case) []*core.Violation {
 	if out.authErr != nil && out.legit {
 		vs = append(vs, core.V("legit-exchange-failed", "a complete, valid exchange (%s) ended in the error %v; trace %v", c.Seq, out.authErr, out.trace))
 	}
-	if strings.ContainsAny(c.Seq, "AEFG") {
-		rec.NonTrivial(c.Mech + "/" + c.Seq)
+	if strings.ContainsAny(c.Seq, "AEFGL") {
+		rec.NonTrivial(fmt.Sprintf("%s/%s/%v", c.Mech, c.Seq, c.Reuse))
 		rec.Sample(fmt.Sprintf("%s/%d/%v", c.Mech, len(c.Seq), out.authErr == nil), map[string]interface{}{"mech": c.Mech, "sequence": c.Seq, "trace": out.trace, "auth_error": fmt.Sprint(out.authErr), "legit": out.legit})
 	}
 	return vs
@@ -305,9 +353,9 @@ func c15Run(c c15Case) []*core.Violation {
 
 func c15Describe() {
 	rec := core.Rec("C15")
-	rec.Rule = "bounded-exhaustive: every server message sequence of length <= 5 (PLUS variants <= 4) in quick and <= 7 (PLUS <= 6) in thorough over the alphabet {A valid server-first, B server-first with foreign nonce, C with truncated nonce, D malformed server-first, E valid server-final, F server-final made with another key, G server-final over empty state, H empty challenge, I junk, J 235, K 535}, for SCRAM-SHA-1, SCRAM-SHA-256 and both PLUS variants (over a real TLS 1.2 handshake on an in-memory connection), driven through smtp.Client.Auth; depth-first with pruning once the client has aborted or the exchange ended. " +
+	rec.Rule = "bounded-exhaustive: every server message sequence of length <= 5 (PLUS variants <= 4) in quick and <= 7 (PLUS <= 6) in thorough over the alphabet {A valid server-first, B server-first with foreign nonce, C with truncated nonce, D malformed server-first, E valid server-final, F server-final made with another key, G server-final over empty state, H empty challenge, I junk, J 235, K 535, L replayed valid server-final of an earlier exchange of the same Auth object}, for SCRAM-SHA-1, SCRAM-SHA-256 and both PLUS variants (over a real TLS 1.2 handshake on an in-memory connection), driven through smtp.Client.Auth, also with an Auth object that completed a genuine exchange on an earlier connection (reuse, sequences <= 4 / <= 6); depth-first with pruning once the client has aborted or the exchange ended. " +
 		"Oracle (reference tracker of the exchange): Auth returns nil only if, since the last client-first, the valid server-first was answered by a verifying client-final and the valid server-final was acknowledged before the 235; the client sends client-final only after a valid server-first and acknowledges a v= message only when it is the valid one; a complete valid exchange succeeds. " +
-		"Non-trivial: the sequence contains a message that is valid for some exchange (A, E, F or G). Distinct by (mechanism, sequence)."
+		"Non-trivial: the sequence contains a message that is valid for some exchange (A, E, F, G or L). Distinct by (mechanism, sequence)."
 	rec.Assumptions = []string{"PBKDF2 iteration count 4 to keep the enumeration cheap", "known finding scram-bare-235: a 235 is accepted whatever preceded it; counted and excluded by signature"}
 }
 
@@ -323,14 +371,15 @@ func TestC15Enum(t *testing.T) {
 	}
 	c15Describe()
 	p := core.Prop[c15Case]{ID: "C15", Test: "TestC15", Run: c15Run}
-	alphabet := "ABCDEFGHIJK"
+	alphabet := "ABCDEFGHIJKL"
 	type job struct {
-		mech string
-		max  int
+		mech  string
+		max   int
+		reuse bool
 	}
-	jobs := []job{{"SCRAM-SHA-1", 5}, {"SCRAM-SHA-256", 5}, {"SCRAM-SHA-1-PLUS", 4}, {"SCRAM-SHA-256-PLUS", 4}}
+	jobs := []job{{"SCRAM-SHA-1", 5, false}, {"SCRAM-SHA-256", 5, false}, {"SCRAM-SHA-1-PLUS", 4, false}, {"SCRAM-SHA-256-PLUS", 4, false}, {"SCRAM-SHA-1", 4, true}, {"SCRAM-SHA-256", 4, true}}
 	if core.Thorough() {
-		jobs = []job{{"SCRAM-SHA-1", 7}, {"SCRAM-SHA-256", 7}, {"SCRAM-SHA-1-PLUS", 6}, {"SCRAM-SHA-256-PLUS", 6}}
+		jobs = []job{{"SCRAM-SHA-1", 7, false}, {"SCRAM-SHA-256", 7, false}, {"SCRAM-SHA-1-PLUS", 6, false}, {"SCRAM-SHA-256-PLUS", 6, false}, {"SCRAM-SHA-1", 6, true}, {"SCRAM-SHA-256", 6, true}}
 	}
 	n := 0
 	for _, j := range jobs {
@@ -348,7 +397,7 @@ func TestC15Enum(t *testing.T) {
 				run := len(seq) >= 2 || core.Shard == 0
 				var aborted bool
 				if run {
-					c := c15Case{Mech: j.mech, Seq: seq}
+					c := c15Case{Mech: j.mech, Seq: seq, Reuse: j.reuse}
 					out, hv := c15Exec(&c)
 					if hv != nil {
 						t.Fatalf("HARNESS-ERROR: %v", hv)
@@ -360,7 +409,7 @@ func TestC15Enum(t *testing.T) {
 					}
 				} else {
 					// length-1 prefixes are run by shard 0 only; still need to know whether to descend
-					c := c15Case{Mech: j.mech, Seq: seq}
+					c := c15Case{Mech: j.mech, Seq: seq, Reuse: j.reuse}
 					out, hv := c15Exec(&c)
 					if hv != nil {
 						t.Fatalf("HARNESS-ERROR: %v", hv)
